@@ -263,6 +263,30 @@ THEOREM SeriesCount == \A span, step, k \in Int : (span >= 0 /\ step > 0 /\ k >=
   <1> QED BY <1>1, <1>2
 
 -----------------------------------------------------------------------------
+LEMMA DiffBound == \A a, b, n \in Int : (0 <= a /\ a < n /\ 0 <= b /\ b < n) => (0 - n < a - b /\ a - b < n)
+  OBVIOUS
+(* C20: (week, time of week) is the unique pair with week * W + tow = v and 0 <= tow < W *)
+THEOREM TimeOfWeek == \A v, W \in Int : (v >= 0 /\ W > 0) =>
+                        /\ v = W * (v \div W) + (v % W) /\ 0 <= v % W /\ v % W < W /\ v \div W >= 0
+                        /\ \A q, r \in Int : (v = W * q + r /\ 0 <= r /\ r < W) => (q = v \div W /\ r = v % W)
+  <1> TAKE v, W \in Int
+  <1> HAVE v >= 0 /\ W > 0
+  <1> DEFINE q0 == v \div W  r0 == v % W
+  <1>1. v = W * q0 + r0 /\ 0 <= r0 /\ r0 < W /\ q0 \in Int /\ r0 \in Int BY DivMod
+  <1>2. q0 >= 0
+    <2>1. W * q0 > W * (0 - 1) BY <1>1
+    <2>2. q0 > 0 - 1 BY <2>1, <1>1, MulCancelLt
+    <2> QED BY <2>2, <1>1
+  <1>3. ASSUME NEW q \in Int, NEW r \in Int, v = W * q + r, 0 <= r, r < W PROVE q = q0 /\ r = r0
+    <2>1. W * (q - q0) = r0 - r BY <1>3, <1>1
+    <2>2. 0 - W < r0 - r /\ r0 - r < W BY <1>3, <1>1, DiffBound
+    <2>3. W * (0 - 1) < W * (q - q0) /\ W * (q - q0) < W * 1 BY <2>1, <2>2, <1>1
+    <2>4. 0 - 1 < q - q0 /\ q - q0 < 1 BY <2>3, <1>1, MulCancelLt
+    <2>5. q = q0 BY <2>4, <1>1
+    <2> QED BY <2>5, <2>1, <1>1
+  <1> QED BY <1>1, <1>2, <1>3
+
+-----------------------------------------------------------------------------
 (* C01: within the range the saturating operations are the exact ones, and negation is an involution *)
 (* wherever the negated value is representable (for hifitime's symmetric bounds: everywhere)         *)
 DAdd(a, b) == Clamp(a + b)
